@@ -1,26 +1,34 @@
 #!/bin/bash
-# regression of the checks: the unchanged tree (all 17 must be OK), every saved seeded change (must give the verdict recorded in its
-# meta.json or better) and every saved behaviour-preserving refactoring (must never give a VIOLATION).  usage: tools/regress.sh [jobs]
+# regression of the checks: the unchanged tree (all 17 must be OK), every saved seeded change (the check of the property it was written to
+# break must give the verdict recorded in its meta.json or better) and every saved behaviour-preserving refactoring (all 17 checks; must
+# never give a VIOLATION).  usage: tools/regress.sh [jobs] [all]   ("all": run all 17 checks on the seeds too)
 # Seeds are only re-checked here (their demos were confirmed against the real crate when they were saved: tools/seed_verify.sh).
-cd /verif
-J=${1:-4}
+VROOT=${VROOT:-/verif}; export VROOT
+cd $VROOT
+J=${1:-4}; export SEEDMODE=${2:-expected}
+ALL="C01 C02 C03 C04 C05 C06 C07 C08 C09 C10 C11 C12 C13 C14 C15 C16 C17"; export ALL
 echo "== unchanged tree"
-for P in C01 C02 C03 C04 C05 C06 C07 C08 C09 C10 C11 C12 C13 C14 C15 C16 C17; do VERIF_GEN=/tmp/gen_regress ./check $P --repo /repo 2>&1 | tail -1 | awk '{print $1,$2}'; done | sort | uniq -c
+for P in $ALL; do VERIF_GEN=/tmp/gen_regress ./check $P --repo /repo 2>&1 | tail -1 | awk '{print $1,$2}'; done | sort | uniq -c
 one() {
   kind=$1; id=$2; patch=$3; tag=$(echo "$kind-$id" | tr '/' '_'); WT=/tmp/rg_$tag
+  cd $VROOT
   git -C /repo worktree remove --force $WT 2>/dev/null
   git -C /repo worktree add -q --detach $WT HEAD || { echo "RESULT $kind $id: WORKTREE FAILED"; return; }
   if ! git -C $WT apply $patch 2>/dev/null; then echo "RESULT $kind $id: PATCH DOES NOT APPLY"; git -C /repo worktree remove --force $WT; return; fi
+  PROPS="$ALL"; EXP=""
+  if [ "$kind" = seed ]; then
+    E=$(python3 -c "import json;print(json.load(open('/verif/seeded/$id/meta.json'))['breaks_property'])" 2>/dev/null); EXP=" expected[$E]"
+    [ "$SEEDMODE" = expected ] && PROPS="$E"
+  fi
   RES=""
-  for P in C01 C02 C03 C04 C05 C06 C07 C08 C09 C10 C11 C12 C13 C14 C15 C16 C17; do
+  for P in $PROPS; do
     VERIF_GEN=/tmp/gen_rg_$tag ./check $P --repo $WT >/dev/null 2>&1; RC=$?
     [ $RC -eq 1 ] && RES="$RES $P:VIOLATION"; [ $RC -eq 2 ] && RES="$RES $P:UNDECIDED"
   done
-  EXP=""; [ "$kind" = seed ] && EXP=" expected[$(python3 -c "import json;print(json.load(open('/verif/seeded/$id/meta.json'))['breaks_property'])" 2>/dev/null)]"
   echo "RESULT $kind $id:${RES:- all OK}$EXP"
   git -C /repo worktree remove --force $WT; rm -rf /tmp/gen_rg_$tag
 }
 export -f one
-echo "== seeds and benign refactorings ($J at a time)"
-( for d in seeded/*/; do id=$(basename $d); echo "seed $id /verif/seeded/$id/patch.diff"; done
-  for f in benign/*/*.diff; do echo "benign $(basename $(dirname $f))/$(basename $f .diff) /verif/$f"; done ) | xargs -P $J -L 1 bash -c 'one $0 $1 $2'
+echo "== seeds ($SEEDMODE) and benign refactorings ($J at a time)"
+( for d in /verif/seeded/*/; do id=$(basename $d); echo "seed $id /verif/seeded/$id/patch.diff"; done
+  for f in /verif/benign/*/*.diff; do echo "benign $(basename $(dirname $f))/$(basename $f .diff) $f"; done ) | xargs -P $J -L 1 bash -c 'one $0 $1 $2'
